@@ -96,6 +96,17 @@ impl Shutdown {
             notify_rx: self.notify_tx.subscribe(),
         }
     }
+
+    /// (live notification handlers, live completion guards)
+    #[cfg(feature = "verif_hooks")]
+    pub fn verif_participants(&self) -> (usize, usize) {
+        (
+            self.notify_tx.receiver_count(),
+            self.shutdown_complete_tx
+                .as_ref()
+                .map_or(0, |x| x.strong_count().saturating_sub(1)),
+        )
+    }
 }
 
 impl Notification {
